@@ -685,11 +685,11 @@ def gen_program(rng, meta, length=None):
         if r < 0.16:                                   # a new cell
             n = fresh.pop()
             ops.append(["N", n])
-            style = rng.choice(["before", "before", "after", "mixed", "none"])
+            style = rng.choice(["before", "before", "after", "mixed", "none", "all"])
             same = rng.random() < 0.5
             v0 = rng.choice(["1", "2", "0.5"])
             imp_ops = [["I", None, p, v0 if same else rng.choice(["1", "2", "0", "0.5"])] for p in parts]
-            if style == "none":
+            if style in ("none", "all"):
                 imp_ops = []
             pre = imp_ops if style == "before" else (imp_ops[:1] if style == "mixed" else [])
             post = [] if style == "before" else (imp_ops[1:] if style == "mixed" else imp_ops)
@@ -709,6 +709,8 @@ def gen_program(rng, meta, length=None):
             ops.append(["A", rng.choice(["append", "append", "extend", "iadd", "renumber"])])
             for o in post:
                 ops.append(["I", n] + o[2:])
+            if style == "all":
+                ops.append(["S", n, v0])
             if univs and rng.random() < 0.3:
                 ops.append(["U", n, rng.choice(univs)])
             cells.append(n)
@@ -802,6 +804,8 @@ def targeted_programs(rng, meta):
             edit += [["U", n, rng.choice(univs)]]
     out.append(("edit-ends", edit))
     out.append(("set-all", [["S", cells[-1], "4"], ["I", cells[0], parts[0], "3"], ["S", cells[0], "0.5"]]))
+    # a new cell has a neutron tree only: importance.all has to give it one for every MODE particle
+    out.append(("append-then-set-all", [["N", new], ["A"], ["S", new, "2"]]))
     return out
 
 
